@@ -373,7 +373,7 @@ for _nm, _har, _obl in (("kept", "inserted_simplex_guard_contract", ["setup", "e
                         ("removed", "inserted_simplex_guard_removed_contract", ["setup", "removed-cells-do-not-count"])):
     K("flip.inserted_simplex_guard." + _nm, ["C07"], FLIPS, "flips_guard.rs", _har, "K-slice",
       [dict(file=FLIPS, name="apply_bistellar_flip_with_k (K-slice: the inserted-simplex legality guard)", anchor=r"fn apply_bistellar_flip_with_k<"), fn(FLIPS, "find_cell_containing_simplex")],
-      slices=[_SL_GUARD], extra_attach=[("src/core/cell.rs", "cell_helper.rs"), (TDS, "tds_helper.rs")], timeout=1500, no_playback=True,
+      slices=[_SL_GUARD], extra_attach=[("src/core/cell.rs", "cell_helper.rs"), (TDS, "tds_helper.rs")], timeout=7000, mem_gb=24, no_playback=True,
       bounded="D = 3, one stored cell {1,2,3,4}, inserted simplex {1,2}, removed face {3,5,6}; k_move in 1..=4",
       assumed=["K-slice: the `if k_move >= 2 && k_move < D && let Some(existing_cell) = .. { .. }` statement of apply_bistellar_flip_with_k, verbatim; find_cell_containing_simplex is real code; "
                "Tds::find_cells_containing_vertex_by_key (stub): the star of a vertex in THIS Tds (one stored cell); repair_trace_enabled / env::var_os / format! stubbed"],
@@ -1051,7 +1051,7 @@ K("dt.reseeded_index", ["C09"], DT, "dt_index.rs", "reseeded_index_contract", "K
 # command: they do not finish within 45 min here (or were never seen to finish).
 # They are listed in DESIGN.md 8.4 with what was observed.
 # ======================================================================================
-_MANUAL = {"construct.retry_gate", "tri.validation_report", "dt.level4_report", "order.seed", "facet_key.order_free", "dedup.n4",
+_MANUAL = {"construct.retry_gate", "flip.inserted_simplex_guard.kept", "flip.inserted_simplex_guard.removed", "tri.txn_attempt.ok", "tri.txn_attempt.dup", "tri.txn_attempt.degenerate", "tri.txn_attempt.structural", "tri.validation_report", "dt.level4_report", "order.seed", "facet_key.order_free", "dedup.n4",
            "tds.remove_cells_bump.k0", "tds.remove_cells_bump.k1", "tds.remove_cells_bump.k2",
            "tri.adjacent_cells.n2_nohint", "tri.adjacent_cells.n2_hint", "tri.adjacent_cells.n0_absent",
            "hull.stale.is_point_outside", "hull.stale.find_visible", "hull.stale.find_nearest", "hull.stale.facet_visible",
